@@ -46,19 +46,34 @@ _kind = st.sampled_from(["ok", "block", "fail", "fail", "raise_e", "raise_e", "r
 _op = st.one_of(
     st.tuples(st.just("req"), st.integers(0, 3), _kind),
     st.tuples(st.just("req"), st.integers(4, 40), _kind),
-    st.tuples(st.just("adv"), st.sampled_from([1, 59, 60, 61])),
+    st.tuples(st.just("adv"), st.sampled_from([1, 59, 60, 61, 61, 61])),
+    st.tuples(st.just("adv"), st.sampled_from([61, 120])),
     st.tuples(st.just("reset")),
 ).map(list)
 
 
+def _with_trip_prefix(case):
+    """40% of the generated histories start by tripping the breaker and waiting out the timeout, so that probes are common"""
+    if case.pop("trip"):
+        k = case["threshold"]
+        case["ops"] = [["req", 30 + i, "raise_e"] for i in range(k)] + [["adv", 61]] + case["ops"]
+    return case
+
+
 def strategy(tier):
+    return _strategy().map(_with_trip_prefix)
+
+
+def _strategy():
     return st.fixed_dictionaries({
+        "trip": st.sampled_from([False, False, False, True, True]),
         "logic": st.sampled_from(LOGICS + ["AND", "AND"]),
         "threshold": st.integers(1, 4),
         "breaker": st.sampled_from([True, True, True, False]),
         "cache": st.booleans(),
         "ops": st.lists(_op, min_size=1, max_size=20),
     })
+
 
 
 _ENUM_OPS = [["req", 0, "ok"], ["req", 1, "block"], ["req", 2, "fail"], ["req", 3, "raise_e"], ["req", 2, "ok"],
